@@ -3,6 +3,9 @@
 //! forwards to it (BatchActuateStreamRequest) is recorded in the same inbox a core provider has.
 //!   60 SPROV p n sig*                       -> [0 handle] | [1 status]
 //!   61 SPUB  p h n (id vflag [value])*      -> [0 nerr (id code)*] | [1 status]
+//!   62 V1STR p n (update as in V1SET)*       -> [0 nerr (k code)*] | [1 status]     kuksa.val.v1 StreamedUpdate
+//!   63 SDVSTR p n (id vflag [value])*        -> [0 nerr (id code)*] | [1 status]    sdv Collector StreamDatapoints
+//! (62 / 63: principal p keeps ONE stream open for the whole case; every operation is one request message on it)
 //! The server runs with authorization enabled; principal p presents a freshly signed token carrying its scope.
 use crate::codec::{Cur, Tok};
 use crate::fam_api::{from_v2_value, v2_value};
@@ -10,7 +13,9 @@ use crate::fam_hist::World;
 use crate::fam_srv::with_auth;
 use crate::util::code_num;
 use databroker::types::DataValue;
+use databroker_proto::kuksa::val::v1 as p1;
 use databroker_proto::kuksa::val::v2 as p2;
+use databroker_proto::sdv::databroker::v1 as ps;
 use std::collections::HashMap;
 use std::sync::{Arc, Mutex};
 use std::time::Duration;
@@ -31,6 +36,19 @@ pub struct ProvStream {
     answers: HashMap<i32, Vec<(i32, Tok)>>,
     dead: bool,
 }
+
+pub struct V1Stream {
+    tx: tokio::sync::mpsc::Sender<p1::StreamedUpdateRequest>,
+    rx: tonic::Streaming<p1::StreamedUpdateResponse>,
+}
+
+pub struct SdvStream {
+    tx: tokio::sync::mpsc::Sender<ps::StreamDatapointsRequest>,
+    rx: tonic::Streaming<ps::StreamDatapointsReply>,
+}
+
+/// the id no generated request uses: a datapoint for it is answered UNKNOWN_DATAPOINT, which is the barrier
+const BARRIER_ID: i32 = i32::MIN;
 
 impl Grpc {
     pub async fn start(broker: databroker::broker::DataBroker) -> Grpc {
@@ -230,6 +248,137 @@ pub async fn step_prov(w: &mut World, op: Tok, c: &mut Cur<'_>) -> Vec<Vec<Tok>>
             for (i, e) in errs {
                 o.push(i as Tok);
                 o.push(e);
+            }
+            vec![o]
+        }
+        62 => {
+            let (Some(p), Some(n)) = (c.next(), c.next()) else { return bad };
+            let cts = crate::fam_api::client_ts(w);
+            let Some((updates, paths)) = crate::fam_api::parse_v1_updates(c, n, &cts) else { return bad };
+            if !w.v1streams.contains_key(&p) {
+                let hdr = token_header(w, p);
+                let channel = w.grpc.as_ref().unwrap().channel.clone();
+                let mut client = p1::val_client::ValClient::new(channel);
+                let (tx, rx) = tokio::sync::mpsc::channel(64);
+                match client.streamed_update(with_auth(ReceiverStream::new(rx), &hdr)).await {
+                    Err(s) => return vec![vec![1, code_num(s.code())]],
+                    Ok(r) => {
+                        w.v1streams.insert(p, V1Stream { tx, rx: r.into_inner() });
+                    }
+                }
+            }
+            // the elements whose path names no signal (or that have no entry), in request order
+            let mut nonres: Vec<usize> = Vec::new();
+            for (i, path) in paths.iter().enumerate() {
+                match path {
+                    None => nonres.push(i),
+                    Some(x) => {
+                        if crate::fam_api::block_id(w, x).await < 0 {
+                            nonres.push(i)
+                        }
+                    }
+                }
+            }
+            let st = w.v1streams.get_mut(&p).unwrap();
+            if st.tx.send(p1::StreamedUpdateRequest { updates }).await.is_err() {
+                return vec![vec![-6]];
+            }
+            let resp = match tokio::time::timeout(Duration::from_secs(2), st.rx.message()).await {
+                Ok(Ok(Some(m))) => m,
+                Ok(Err(s)) => return vec![vec![1, code_num(s.code())]],
+                Ok(Ok(None)) => return vec![vec![-6]],
+                Err(_) => return vec![vec![-88]],
+            };
+            // the message-level error repeats the first element error
+            let top = resp.error.as_ref().map(|e| e.code as Tok);
+            let first = resp.errors.first().and_then(|e| e.error.as_ref()).map(|e| e.code as Tok);
+            if top != first {
+                return vec![vec![-7]];
+            }
+            let mut errs: Vec<(Tok, Tok)> = Vec::new();
+            let mut ui = 0;
+            for e in &resp.errors {
+                let code = e.error.as_ref().map(|x| x.code as Tok).unwrap_or(-1);
+                let id = if e.path.is_empty() { -1 } else { crate::fam_api::block_id(w, &e.path).await };
+                if id < 0 {
+                    if ui < nonres.len() {
+                        // an element without entry is reported with an empty path, an unknown path with that path
+                        let want = paths[nonres[ui]].clone().unwrap_or_default();
+                        if want != e.path {
+                            return vec![vec![-9]];
+                        }
+                        errs.push((-(nonres[ui] as Tok + 1), code));
+                        ui += 1;
+                    } else {
+                        errs.push((-1000, code));
+                    }
+                } else {
+                    errs.push((id, code));
+                }
+            }
+            errs.sort_by_key(|e| e.0);
+            let mut o = vec![0, errs.len() as Tok];
+            for (a, c) in errs {
+                o.push(a);
+                o.push(c);
+            }
+            vec![o]
+        }
+        63 => {
+            let (Some(p), Some(n)) = (c.next(), c.next()) else { return bad };
+            let cts = crate::fam_api::client_ts(w);
+            let mut dps = HashMap::new();
+            for _ in 0..n {
+                let (Some(id), Some(v)) = (c.next(), c.opt_value()) else { return bad };
+                dps.insert(id as i32, ps::Datapoint { timestamp: cts.clone(), value: v.as_ref().and_then(crate::fam_api::sdv_value) });
+            }
+            if !w.sdvstreams.contains_key(&p) {
+                let hdr = token_header(w, p);
+                let channel = w.grpc.as_ref().unwrap().channel.clone();
+                let mut client = ps::collector_client::CollectorClient::new(channel);
+                let (tx, rx) = tokio::sync::mpsc::channel(64);
+                match client.stream_datapoints(with_auth(ReceiverStream::new(rx), &hdr)).await {
+                    Err(s) => return vec![vec![1, code_num(s.code())]],
+                    Ok(r) => {
+                        w.sdvstreams.insert(p, SdvStream { tx, rx: r.into_inner() });
+                    }
+                }
+            }
+            let st = w.sdvstreams.get_mut(&p).unwrap();
+            if st.tx.send(ps::StreamDatapointsRequest { datapoints: dps }).await.is_err() {
+                return vec![vec![-6]];
+            }
+            // a fully accepted message is not answered: a second message naming only an id that cannot exist is,
+            // and its reply travels behind the reply to the first
+            let mut barrier = HashMap::new();
+            barrier.insert(BARRIER_ID, ps::Datapoint { timestamp: None, value: None });
+            if st.tx.send(ps::StreamDatapointsRequest { datapoints: barrier }).await.is_err() {
+                return vec![vec![-6]];
+            }
+            let mut errs: Vec<(Tok, Tok)> = Vec::new();
+            let mut replies = 0;
+            loop {
+                match tokio::time::timeout(Duration::from_secs(2), st.rx.message()).await {
+                    Ok(Ok(Some(m))) => {
+                        if m.errors.len() == 1 && m.errors.contains_key(&BARRIER_ID) {
+                            break;
+                        }
+                        replies += 1;
+                        errs.extend(m.errors.into_iter().map(|(a, c)| (a as Tok, c as Tok)));
+                    }
+                    Ok(Err(s)) => return vec![vec![1, code_num(s.code())]],
+                    Ok(Ok(None)) => return vec![vec![-6]],
+                    Err(_) => return vec![vec![-88]],
+                }
+            }
+            if replies > 1 {
+                return vec![vec![-7]];
+            }
+            errs.sort_by_key(|e| e.0);
+            let mut o = vec![0, errs.len() as Tok];
+            for (a, c) in errs {
+                o.push(a);
+                o.push(c);
             }
             vec![o]
         }
